@@ -50,10 +50,11 @@ pub fn dump(db: &SparqlDatabase) -> Result<Store, String> {
 }
 pub fn raw_state(db: &SparqlDatabase) -> (BTreeSet<Quad>, Vec<GraphId>) { (db.dataset_index.all_quads().into_iter().collect(), db.dataset_index.named_graphs()) }
 
-pub struct Vocab { pub nn: u64, pub np: u64, pub ng: u64, pub nl: u64 }
+pub struct Vocab { pub nn: u64, pub np: u64, pub ng: u64, pub nl: u64, pub rel: bool }
 impl Vocab {
-    pub fn n(&self, r: &mut Rng) -> String { format!("http://e/n{}", r.below(self.nn)) }
-    pub fn p(&self, r: &mut Rng) -> String { format!("http://e/p{}", r.below(self.np)) }
+    /// with `rel`, some nodes and predicates are relative IRIs (`<r1>`, `<q0>`): Kolibrie stores them as bare strings
+    pub fn n(&self, r: &mut Rng) -> String { if self.rel && r.chance(1, 3) { format!("r{}", r.below(3)) } else { format!("http://e/n{}", r.below(self.nn)) } }
+    pub fn p(&self, r: &mut Rng) -> String { if self.rel && r.chance(1, 4) { format!("q{}", r.below(2)) } else { format!("http://e/p{}", r.below(self.np)) } }
     pub fn g(&self, r: &mut Rng) -> String { format!("http://e/g{}", r.below(self.ng)) }
     pub fn l(&self, r: &mut Rng) -> String { format!("v{}", r.below(self.nl)) }
     pub fn obj(&self, r: &mut Rng) -> T { if r.chance(1, 3) { T::Lit(self.l(r)) } else { T::Iri(self.n(r)) } }
@@ -94,7 +95,7 @@ pub const REJECTED: [&str; 12] = [
     "DELETE { <http://e/n0> <http://e/p0> ?a } INSERT { <http://e/n0> <http://e/p1> ?a } WHERE { ?a <http://e/p0> ?b ",
 ];
 pub fn gen_steps(r: &mut Rng, cfg: &mut Rng, n: usize) -> Vec<UStep> {
-    let v = Vocab { nn: 3 + cfg.below(4), np: 2 + cfg.below(2), ng: 2 + cfg.below(2), nl: 3 };
+    let v = Vocab { nn: 3 + cfg.below(4), np: 2 + cfg.below(2), ng: 2 + cfg.below(2), nl: 3, rel: cfg.chance(1, 4) };
     let w_rej = cfg.below(3) as u32; let w_api = cfg.below(3) as u32;
     let mut steps = vec![];
     for _ in 0..n {
@@ -129,10 +130,10 @@ pub fn step(db: &mut SparqlDatabase, other: &mut SparqlDatabase, m: &mut Store, 
     let expect: Option<(BTreeSet<Q>, BTreeSet<Q>)> = match st {
         UStep::InsertData(q) => Some((BTreeSet::new(), qm::inst(q, &[qm::Binding::new()], true, bnctr))),
         UStep::DeleteData(q) => Some((qm::inst(q, &[qm::Binding::new()], false, bnctr), BTreeSet::new())),
-        UStep::InsertWhere { tpl, pat, flt, alt } => { let sols = flt_apply(where_sols(m, pat, alt), flt); if alt.is_some() { let d: BTreeSet<&qm::Binding> = sols.iter().collect(); if d.len() < sols.len() { ctx.hit("probe.where_returned_the_same_solution_twice"); } } Some((BTreeSet::new(), qm::inst(tpl, &sols, true, bnctr))) }
-        UStep::DeleteTplWhere { tpl, pat, flt, alt } => { let sols = flt_apply(where_sols(m, pat, alt), flt); Some((qm::inst(tpl, &sols, false, bnctr), BTreeSet::new())) }
-        UStep::Modify { del, ins, pat, flt, alt } => { let sols = flt_apply(where_sols(m, pat, alt), flt); Some((qm::inst(del, &sols, false, bnctr), qm::inst(ins, &sols, true, bnctr))) }
-        UStep::DeleteWhere { pat } => { let sols = qm::matchq(m, pat); Some((qm::inst(pat, &sols, false, bnctr), BTreeSet::new())) }
+        UStep::InsertWhere { tpl, pat, flt, alt } => { let sols = flt_apply(where_sols(m, pat, alt), flt); if alt.is_some() { let d: BTreeSet<&qm::Binding> = sols.iter().collect(); if d.len() < sols.len() { ctx.hit("probe.where_returned_the_same_solution_twice"); } } Some((BTreeSet::new(), qm::inst_pre(tpl, &sols, true, bnctr, Some(&*m)))) }
+        UStep::DeleteTplWhere { tpl, pat, flt, alt } => { let sols = flt_apply(where_sols(m, pat, alt), flt); Some((qm::inst_pre(tpl, &sols, false, bnctr, Some(&*m)), BTreeSet::new())) }
+        UStep::Modify { del, ins, pat, flt, alt } => { let sols = flt_apply(where_sols(m, pat, alt), flt); Some((qm::inst_pre(del, &sols, false, bnctr, Some(&*m)), qm::inst_pre(ins, &sols, true, bnctr, Some(&*m)))) }
+        UStep::DeleteWhere { pat } => { let sols = qm::matchq(m, pat); Some((qm::inst_pre(pat, &sols, false, bnctr, Some(&*m)), BTreeSet::new())) }
         _ => None,
     };
     let res = db.execute_update(&text);
